@@ -277,7 +277,12 @@ class Path:
                 if r == z3.sat and not self.pc_has_quant:
                     return True      # the whole path condition is quantifier free: the incremental answer is final
             s = z3.Solver()
-            s.set("timeout", self.ver.feas_timeout_ms)
+            if getattr(self.ver, "feas_rlimit", None):
+                # a contract-specific feasibility budget is a deterministic z3 resource limit, not a wall-clock timeout:
+                # thousands of very short timer expirations per run occasionally crash z3's timer thread (SIGSEGV)
+                s.set("rlimit", self.ver.feas_rlimit)
+            else:
+                s.set("timeout", self.ver.feas_timeout_ms)
             for f in self.pc:
                 s.add(f)
             s.add(c)
